@@ -194,12 +194,15 @@ type FieldDef struct {
 	Cond *Pred
 	Lo   float64
 	Hi   float64
+	Raw  string // kind "raw": literal select expression (differential monitors only; the reference cannot evaluate it)
 }
 
 // SQL renders the select expression for the field.
 func (f *FieldDef) SQL() string {
 	var e string
 	switch f.Kind {
+	case "raw":
+		return f.Raw + " AS " + f.Name
 	case "bare":
 		return f.A + " AS " + f.Name
 	case "sum", "count", "min", "max", "avg":
